@@ -88,6 +88,8 @@ impl<T> Signal<T> {
     /// Waits for finishing async signal for a short time
     #[cfg(feature = "async")]
     pub(crate) fn async_blocking_wait(&self) -> bool {
+        #[cfg(kanal_verif)]
+        crate::verif::rt::probe(crate::verif::rt::probe::ABW_ENTER);
         let v = self.state.load(Ordering::Relaxed);
         if v < LOCKED {
             fence(Ordering::Acquire);
@@ -113,6 +115,8 @@ impl<T> Signal<T> {
         }
 
         // Usually this part will not happen but you can't be sure
+        #[cfg(kanal_verif)]
+        crate::verif::rt::probe(crate::verif::rt::probe::ABW_SLEEP);
         let mut sleep_time: u64 = 1 << 10;
         loop {
             backoff::sleep(Duration::from_nanos(sleep_time));
@@ -131,6 +135,8 @@ impl<T> Signal<T> {
     /// Waits for the signal event in sync mode,
     #[inline(always)]
     pub(crate) fn wait(&self) -> bool {
+        #[cfg(kanal_verif)]
+        crate::verif::rt::probe(crate::verif::rt::probe::WAIT_ENTER);
         let v = self.state.load(Ordering::Relaxed);
         if v < LOCKED {
             fence(Ordering::Acquire);
@@ -155,6 +161,8 @@ impl<T> Signal<T> {
         match &self.waker {
             KanalWaker::Sync(waker) => {
                 // waker is not shared as the state is not `LOCKED_STARVATION`
+                #[cfg(kanal_verif)]
+                crate::verif::rt::mem_write(waker.get() as usize, "wait:store-thread-handle");
                 unsafe {
                     *waker.get() = Some(std::thread::current());
                 }
@@ -165,6 +173,8 @@ impl<T> Signal<T> {
                     Ordering::Acquire,
                 ) {
                     Ok(_) => loop {
+                        #[cfg(kanal_verif)]
+                        crate::verif::rt::probe(crate::verif::rt::probe::PARK_ENTER);
                         std::thread::park();
                         let v = self.state.load(Ordering::Acquire);
                         if v < LOCKED {
@@ -181,6 +191,8 @@ impl<T> Signal<T> {
 
     /// Waits for the signal event in sync mode with a timeout
     pub(crate) fn wait_timeout(&self, until: Instant) -> bool {
+        #[cfg(kanal_verif)]
+        crate::verif::rt::probe(crate::verif::rt::probe::WAIT_TIMEOUT_ENTER);
         if get_parallelism() > 1 {
             #[cfg(kanal_verif)]
             let mut verif_knob = crate::verif::rt::SpinKnob::new(1);
@@ -223,6 +235,8 @@ impl<T> Signal<T> {
     #[inline(always)]
     #[cfg(feature = "async")]
     pub(crate) fn register_waker(&mut self, waker: &Waker) {
+        #[cfg(kanal_verif)]
+        crate::verif::rt::mem_write(&self.waker as *const _ as usize, "register_waker");
         self.waker = KanalWaker::Async(waker.clone())
     }
 
@@ -230,6 +244,8 @@ impl<T> Signal<T> {
     #[inline(always)]
     #[cfg(feature = "async")]
     pub(crate) fn will_wake(&self, waker: &Waker) -> bool {
+        #[cfg(kanal_verif)]
+        crate::verif::rt::mem_read(&self.waker as *const _ as usize, "will_wake");
         match &self.waker {
             KanalWaker::Async(w) => w.will_wake(waker),
             KanalWaker::Sync(_) | KanalWaker::None => unreachable!(),
@@ -255,6 +271,11 @@ impl<T> Signal<T> {
                     .compare_exchange(LOCKED, state, Ordering::Release, Ordering::Acquire)
                     .is_err()
                 {
+                    #[cfg(kanal_verif)]
+                    {
+                        crate::verif::rt::mem_read(waker.get() as usize, "wake:read-thread-handle");
+                        crate::verif::rt::probe(crate::verif::rt::probe::WAKE_STARVATION);
+                    }
                     let thread = (*waker.get()).as_ref().unwrap().clone();
                     (*this).state.store(state, Ordering::Release);
                     thread.unpark();
@@ -262,6 +283,11 @@ impl<T> Signal<T> {
             }
             #[cfg(feature = "async")]
             KanalWaker::Async(w) => {
+                #[cfg(kanal_verif)]
+                {
+                    crate::verif::rt::mem_read(core::ptr::addr_of!((*this).waker) as usize, "wake:read-waker");
+                    crate::verif::rt::probe(crate::verif::rt::probe::WAKE_ASYNC);
+                }
                 let w = w.clone();
                 (*this).state.store(state, Ordering::Release);
                 w.wake();
@@ -275,6 +301,10 @@ impl<T> Signal<T> {
     /// Safety: it's only safe to be called only once on the receive signals
     /// that are not terminated
     pub(crate) unsafe fn send(this: *const Self, d: T) {
+        #[cfg(kanal_verif)]
+        let _verif_peer = crate::verif::rt::peer(this as usize);
+        #[cfg(kanal_verif)]
+        crate::verif::rt::probe(crate::verif::rt::probe::DIRECT_TO_RECEIVER);
         (*this).ptr.write(d);
         Self::wake(this, UNLOCKED);
     }
@@ -284,6 +314,10 @@ impl<T> Signal<T> {
     /// that are not terminated
     #[allow(unused)]
     pub(crate) unsafe fn send_copy(this: *const Self, d: *const T) {
+        #[cfg(kanal_verif)]
+        let _verif_peer = crate::verif::rt::peer(this as usize);
+        #[cfg(kanal_verif)]
+        crate::verif::rt::probe(crate::verif::rt::probe::DIRECT_TO_RECEIVER);
         (*this).ptr.copy(d);
         Self::wake(this, UNLOCKED);
     }
@@ -292,6 +326,10 @@ impl<T> Signal<T> {
     /// Safety: it's only safe to be called only once on send signals that are
     /// not terminated
     pub(crate) unsafe fn recv(this: *const Self) -> T {
+        #[cfg(kanal_verif)]
+        let _verif_peer = crate::verif::rt::peer(this as usize);
+        #[cfg(kanal_verif)]
+        crate::verif::rt::probe(crate::verif::rt::probe::DIRECT_FROM_SENDER);
         let r = (*this).ptr.read();
         Self::wake(this, UNLOCKED);
         r
@@ -301,6 +339,8 @@ impl<T> Signal<T> {
     /// Safety: it's only safe to be called only once on send/receive signals
     /// that are not finished or terminated
     pub(crate) unsafe fn terminate(this: *const Self) {
+        #[cfg(kanal_verif)]
+        let _verif_peer = crate::verif::rt::peer(this as usize);
         Self::wake(this, TERMINATED);
     }
 
@@ -314,11 +354,36 @@ impl<T> Signal<T> {
 
     /// Returns signal terminator for other side of channel
     pub(crate) fn get_terminator(&self) -> SignalTerminator<T> {
+        #[cfg(kanal_verif)]
+        {
+            let (slot, slot_len) = self.ptr.verif_target();
+            crate::verif::rt::publish(
+                self as *const Self as usize,
+                core::mem::size_of::<Self>(),
+                slot,
+                slot_len,
+            );
+        }
         (self as *const Signal<T>).into()
     }
 }
 
+/// The waiter's operation is over: its region must no longer be referenced.
+#[cfg(kanal_verif)]
+impl<T> Drop for Signal<T> {
+    fn drop(&mut self) {
+        crate::verif::rt::retire(self as *const Self as usize);
+    }
+}
+
 pub(crate) struct SignalTerminator<T>(*const Signal<T>);
+
+#[cfg(kanal_verif)]
+impl<T> SignalTerminator<T> {
+    pub(crate) fn verif_addr(&self) -> usize {
+        self.0 as usize
+    }
+}
 
 impl<T> From<*const Signal<T>> for SignalTerminator<T> {
     fn from(value: *const Signal<T>) -> Self {
